@@ -187,9 +187,9 @@ Proof.
   - exists cs. split; [reflexivity | exact Hinv].
   - cbn [eval_targets_c eval_targets]. unfold target_matches.
     destruct (field_inputs_cached_eq_uncached sm pidf l
-                (attach_keys (ko [i]) 0 (get_field X (sub ord i) st c)) cs Hwf Hinv) as (cs1 & E1 & Hinv1).
+                (attach_keys (ko [i]) 0 (get_field X (sub ord i) st (with_rt st c))) cs Hwf Hinv) as (cs1 & E1 & Hinv1).
     rewrite E1, sel_mds_attach. rewrite <- satisfying_of_inputs.
-    destruct (IH (fold_left match_variable (flat_map (satisfying X l neg o) (get_field X (sub ord i) st c)) st)
+    destruct (IH (fold_left match_variable (flat_map (satisfying X l neg o) (get_field X (sub ord i) st (with_rt st c))) st)
                  (S i) cs1 Hinv1) as (cs2 & E2 & Hinv2). rewrite E2.
     exists cs2. split; [|exact Hinv2].
     destruct (eval_targets X ord _ l neg o (S i) cps) as [rest st']. reflexivity.
@@ -236,8 +236,8 @@ Proof.
   - exists cs. split; [reflexivity | exact Hinv].
   - inversion Hwf as [|? ? Hr Hrs]; subst. cbn [eval_rules_c eval_rules].
     destruct (in_phase ph r).
-    + destruct (eval_rule_c_eq (sub ord i) (ksub ko i) (set_mvars st []) r cs Hr Hinv) as (cs1 & E1 & Hinv1).
-      rewrite E1. destruct (eval_rule X (sub ord i) (set_mvars st []) r) as [res st'].
+    + destruct (eval_rule_c_eq (sub ord i) (ksub ko i) (rule_start st r) r cs Hr Hinv) as (cs1 & E1 & Hinv1).
+      rewrite E1. destruct (eval_rule X (sub ord i) (rule_start st r) r) as [res st'].
       destruct (IH st' (S i) cs1 Hrs Hinv1) as (cs2 & E2 & Hinv2). rewrite E2.
       destruct (eval_rules X ord st' ph (S i) rules) as [out st''].
       exists cs2. split; [reflexivity | exact Hinv2].
@@ -273,8 +273,8 @@ Proof. intros Hst Hord Hwf Hinv. rewrite rule_fires_c_eq by assumption. apply ru
 Theorem fires_iff_declarative_with_cache ord ko st r cs : wf_state st -> ok_oracle ord ->
   links_wf sm pidf (rule_links r) -> inv cs ->
   Forall (fun l => reads_mvar l = false /\ is_action l = false) (rule_links r) ->
-  (rule_fires_c X ord ko pidf st r cs = true <-> Forall (link_holds X st) (rule_links r)).
-Proof. intros Hst Hord Hwf Hinv Hl. rewrite rule_fires_c_eq by assumption. apply rule_fires_declarative; assumption. Qed.
+  (rule_fires_c X ord ko pidf st r cs = true <-> Forall (link_holds_rt X st) (rule_links r)).
+Proof. intros Hst Hord Hwf Hinv Hl. rewrite rule_fires_c_eq by assumption. apply rule_fires_declarative_rt; assumption. Qed.
 
 Theorem matchdata_exact_with_cache ord ko st r cs mds st' cs' : wf_state st -> ok_oracle ord ->
   links_wf sm pidf (rule_links r) -> inv cs ->
